@@ -2,7 +2,6 @@ package props
 
 import (
 	"fmt"
-	"strings"
 	"testing"
 
 	"pgregory.net/rapid"
@@ -131,13 +130,35 @@ func checkC07(c C07Case) Outcome {
 		out.Violation = "generate differs after moving the definition lines to other positions"
 		return out
 	}
-	if hasLabel(c.Lab, "undefined-reference-inside-definition") && a.Exit == 0 && !strings.Contains(a.Stdout, `x\{\{nodef-inner\}\}`) {
-		out.Violation = "a reference to an undefined name inside a definition's value did not stay literal text"
-		return out
+	// undefined names stay literal text. Asked of a probe that holds the file's definition lines and the one
+	// entry only: in the full output the optimiser may factor the literal apart (`(?:z[0-9]|k=x\{\{nodef-inner\})\}[0-9]`),
+	// a substring test there would be unsound
+	probe := func(entry, want string) string {
+		var lines []ragen.Line
+		for _, l := range c.Prog.Main {
+			if l.K == ragen.KDefine {
+				lines = append(lines, ragen.Line{K: ragen.KDefine, Name: l.Name, T: l.T})
+			}
+		}
+		lines = append(lines, ragen.Line{K: ragen.KEntry, T: entry})
+		r := generate(&ragen.Program{Main: lines, Files: map[string][]ragen.Line{}, Config: c.Prog.Config})
+		if r.Exit != 0 || r.Stdout != want {
+			out.Detail["probe"], out.Detail["probe_out"], out.Detail["probe_exit"], out.Detail["probe_want"] = ragen.Print(lines, "\n", true), r.Stdout, r.Exit, want
+			return fmt.Sprintf("with the file's definitions, entry `%s` generates %q, not the literal %q", entry, r.Stdout, want)
+		}
+		return ""
 	}
-	if hasLabel(c.Lab, "undefined-reference") && a.Exit == 0 && !strings.Contains(a.Stdout, `u\{\{undefined`) {
-		out.Violation = "a reference to an undefined name did not stay literal text"
-		return out
+	if hasLabel(c.Lab, "undefined-reference-inside-definition") && a.Exit == 0 {
+		if v := probe("k={{holed}}", `k=x\{\{nodef-inner\}\}[0-9]`); v != "" {
+			out.Violation = "a reference to an undefined name inside a definition's value did not stay literal text: " + v
+			return out
+		}
+	}
+	if hasLabel(c.Lab, "undefined-reference") && a.Exit == 0 {
+		if v := probe("u{{undefined-name}}v", `u\{\{undefined-name\}\}v`); v != "" {
+			out.Violation = "a reference to an undefined name did not stay literal text: " + v
+			return out
+		}
 	}
 	nd := 0
 	for _, l := range c.Prog.Main {
